@@ -313,7 +313,7 @@ def _check_stack_args(arrays, keys=None):
     # convert dictionary to sequence + keys
     if isinstance(arrays, dict):
         if keys is None: keys = list(arrays.keys())
-        arrays = list(arrays.values())
+        arrays = [arrays[k] for k in keys] # pair each key with its own entry
         
     # make sure the result is a sequence
     if type(arrays) not in (list, tuple):
